@@ -33,8 +33,8 @@ TIERS = {
                      part_gen="MC_RenderGen_c05part_thorough.cfg", part_n=8),
 }
 ARGS = lambda t: ["-n", str(t["n"]), "-m", str(t["m"]), "-disk", "-engine", "-crds", "-children", str(t["children"]),
-                  "-reuse", str(t["reuse"]), "-route"]
-REPLAY_ARGS = ["-n", "30", "-m", "8", "-disk", "-engine", "-crds", "-children", "2", "-reuse", "8", "-route"]
+                  "-reuse", str(t["reuse"]), "-route", "-caps", "6"]
+REPLAY_ARGS = ["-n", "30", "-m", "8", "-disk", "-engine", "-crds", "-children", "2", "-reuse", "8", "-route", "-caps", "20"]
 
 KF_OF_MODEL = {"DetSchema": "KF-L8-schema-ref-reads-host-files"}
 
